@@ -21,9 +21,9 @@ FUNCTIONS = ["wannierberri.data_K.data_K_R.Data_K_R.__init__/E_K_corners_tetra/E
              "wannierberri.grid.Kpoint_tetra.KpointBZtetra.vertices_fullBZ", "wannierberri.grid.Kpoint.KpointBZparallel.dK_fullBZ/Kp_fullBZ"]
 BOUNDS = dict(quick=dict(num_wann="1..2 (R-space, k.p), 2..4 (spin-orbit = 2 x 1..2)", NKFFT="(1,1,1) (2,1,1) (1,2,2)", R_sets="3..9 R-vectors; spin-up / spin-down / SOC sets equal, "
                          "different with equal size, different with different size", corners="4 tetrahedron vertices (rational and generic doubles), 8 parallelepiped corners", data="symbolic Hermitian Ham(R), Ham_SOC(R); "
-                         "k.p: quadratic polynomial in k with symbolic Hermitian coefficients", phonon="num_wann=1, nk=1: sign(E)sqrt|E| on every sign pattern"),
+                         "k.p: quadratic polynomial in k with symbolic Hermitian coefficients", phonon="num_wann=1, nk=1, tetrahedron: sign(E)sqrt|E| on every sign pattern"),
               thorough=dict(num_wann="1..3 (R-space, k.p), 2..4 (spin-orbit)", NKFFT="as quick + (2,2,2) (3,1,2)", R_sets="as quick + 15, 27 R-vectors", corners="as quick, 3 K-points each",
-                            data="as quick", phonon="num_wann 1..2"))
+                            data="as quick", phonon="num_wann 1..2 (tetrahedron), 1 (parallelepiped)"))
 EXPLANATION = ("The real Data_K_R / Data_K_soc / Data_K_k constructors and E_K_corners_* run on symbolic Hermitian R-space (or k.p coefficient) matrices with np.linalg.eigvalsh/eigh replaced by a recorder "
                "that logs its argument and returns fresh eigenvalue atoms. z3 decides that every matrix handed to eigvalsh at a corner equals H evaluated directly at k+corner (explicit sum written in the harness, "
                "and the matrices the code's own *_test reference hands to eigh) to 1e-9 for all |data|<=1, and that the returned array holds exactly the eigenvalues of the matching corner.")
@@ -231,18 +231,19 @@ def _check_corners(rec, lin, dk, kind, want, who):
     rec.concrete(f"{who}: one eigvalsh call per corner", len(calls) == ncorner, f"{len(calls)} calls", key=f"{who} {kind}: number of eigvalsh calls")
     if len(calls) != ncorner:
         return
+    same = True
     for ic in range(ncorner):
         rec.concrete(f"{who}: corner matrix shape", calls[ic].shape == want[ic].shape, f"{calls[ic].shape}", key=f"{who} {kind}: corner matrix shape")
         if calls[ic].shape != want[ic].shape:
             return
-        rec.close(f"{who}: matrix handed to eigvalsh at corner {ic} == H(k+corner) evaluated directly", tril(calls[ic]), tril(want[ic]), TOL,
-                  key=f"{who} {kind}: corner matrix differs from H at the corner")
+        same = rec.close(f"{who}: matrix handed to eigvalsh at corner {ic} == H(k+corner) evaluated directly", tril(calls[ic]), tril(want[ic]), TOL,
+                         key=f"{who} {kind}: corner matrix differs from H at the corner") and same
     shape = (nk, 4, nb) if kind == "tetra" else (nk, 2, 2, 2, nb)
     rec.concrete(f"{who}: returned shape", np.shape(out) == shape, f"{np.shape(out)}", key=f"{who} {kind}: returned shape")
     if np.shape(out) == shape:
         got = np.asarray(out, dtype=object).reshape(nk, ncorner, nb)
         rec.eq(f"{who}: returned energies[:, corner] are the eigenvalues of that corner's matrix", got, np.stack(evs, axis=1), key=f"{who} {kind}: eigenvalues stored at the wrong corner")
-    return calls
+    return calls if same else None       # a reported mismatch is not reported a second time against the code's own *_test
 
 
 def _check_own_test(rec, lin, dk, kind, calls, who):
@@ -382,7 +383,8 @@ def cases(tier, seed):
             add(case_soc, up=up, down=down, soc=soc, nws=nws, NKFFT=NK, kind=kind, ik=ik)
         for nb, NK, ik in [(1, (2, 1, 1), 3), (2, (1, 2, 2), 3)] + ([] if q else [(3, (2, 2, 2), 3), (2, (3, 1, 2), 3)]):
             add(case_kp, nb=nb, NKFFT=NK, kind=kind, ik=ik)
-        add(case_phonon, nb=1, kind=kind)
+        if kind == "tetra" or not q:
+            add(case_phonon, nb=1, kind=kind)      # parallel: 2^9 sign patterns, thorough only
     if not q:
         add(case_phonon, nb=2, kind="tetra")
     return out
